@@ -317,7 +317,7 @@ class EdgeQLSourceGenerator(codegen.SourceGenerator):
             self._block_ws(1)
 
         if node.result_alias:
-            self.write(node.result_alias, ' := ')
+            self.write(ident_to_str(node.result_alias), ' := ')
         self.visit(node.result)
         if not node.implicit or node.aliases:
             self._block_ws(-1)
@@ -2599,7 +2599,7 @@ class EdgeQLSourceGenerator(codegen.SourceGenerator):
         self, node: qlast.SessionResetAliasDecl
     ) -> None:
         self._write_keywords('RESET ALIAS ')
-        self.write(node.alias)
+        self.write(ident_to_str(node.alias))
 
     def visit_StartTransaction(self, node: qlast.StartTransaction) -> None:
         self._write_keywords('START TRANSACTION')
@@ -2628,17 +2628,17 @@ class EdgeQLSourceGenerator(codegen.SourceGenerator):
 
     def visit_DeclareSavepoint(self, node: qlast.DeclareSavepoint) -> None:
         self._write_keywords('DECLARE SAVEPOINT ')
-        self.write(node.name)
+        self.write(ident_to_str(node.name))
 
     def visit_RollbackToSavepoint(
         self, node: qlast.RollbackToSavepoint
     ) -> None:
         self._write_keywords('ROLLBACK TO SAVEPOINT ')
-        self.write(node.name)
+        self.write(ident_to_str(node.name))
 
     def visit_ReleaseSavepoint(self, node: qlast.ReleaseSavepoint) -> None:
         self._write_keywords('RELEASE SAVEPOINT ')
-        self.write(node.name)
+        self.write(ident_to_str(node.name))
 
     def visit_DescribeStmt(self, node: qlast.DescribeStmt) -> None:
         self._write_keywords('DESCRIBE ')
